@@ -304,4 +304,10 @@ def tame(c, nleaves, limit=5):
         c["dup"] = 1
     if c["hgt"] == 0:
         c["hgt"] = 1
+    if c.get("sloss") == 0:
+        # free segmental losses: every super-labelling ties (seen: one 8-leaf / 4-family ordered input, sloss=0, whose
+        # ALL set exhausted 6 GB after 12 minutes).  Raising sloss alone could leave the coherent region
+        # (spe + 2*sloss <= dup + 2*floss), so the full-loss cost is raised with it.
+        c["sloss"] = 1
+        c["floss"] += 1
     return c
